@@ -463,8 +463,12 @@ pub mod rewrite {
     module_reference: &ModuleReference,
   ) -> Option<String> {
     let module = state.parsed_modules.get(module_reference)?;
-    let errors = state.errors.get(module_reference).unwrap();
-    if errors.iter().any(|e| e.is_syntax_error()) {
+    // A module without any error has no entry until it is rechecked for the first time.
+    let has_syntax_error = state
+      .errors
+      .get(module_reference)
+      .is_some_and(|errors| errors.iter().any(|e| e.is_syntax_error()));
+    if has_syntax_error {
       None
     } else {
       Some(samlang_printer::pretty_print_source_module(&state.heap, 100, module))
